@@ -325,31 +325,153 @@ Qed.
 (* ------------------------------------------------------------------------------------------------ *)
 (* record -> re-parse                                                                                 *)
 (* ------------------------------------------------------------------------------------------------ *)
-Definition to_item (p : pair) : item := match fst p with [] => IWord (snd p) | n => INamed n (snd p) end.
+(* what quoteParam makes of a stringified parameter, as a documented item *)
+Definition to_item (st : la) : item :=
+  let '(nm, v) := qsplit st in
+  if plain nm v then match nm with [] => IWord v | _ => INamed nm v end
+  else match nm with [] => IQuoted v | _ => INamedQ nm v end.
 
-Lemma to_item_render p : render_item (to_item p) = stringify p.
-Proof. destruct p as [[|n0 n] v]; reflexivity. Qed.
-Lemma to_item_pair p : item_pair (to_item p) = p.
-Proof. destruct p as [[|n0 n] v]; reflexivity. Qed.
-Lemma to_item_v0 p : v0_item (to_item p) = v1_pair p.
-Proof. destruct p as [[|n0 n] v]; reflexivity. Qed.
+Lemma cut_eq_spec s a b : cut_eq s = Some (a, b) -> s = a ++ eqc :: b /\ forallb (fun x => negb (aeq x eqc)) a = true.
+Proof.
+  revert a b; induction s as [|c r IH]; intros a b H; [discriminate|].
+  cbn [cut_eq] in H. destruct (aeq c eqc) eqn:E.
+  - injection H as <- <-. apply aeq_eq in E. subst c. now split.
+  - destruct (cut_eq r) as [[a' b']|]; [|discriminate]. injection H as <- <-.
+    destruct (IH a' b' eq_refl) as [-> Hn]. split; [reflexivity|]. cbn [forallb]. now rewrite E, Hn.
+Qed.
+
+Lemma cut_eq_none s : cut_eq s = None -> forallb (fun x => negb (aeq x eqc)) s = true.
+Proof.
+  induction s as [|c r IH]; [reflexivity|]. cbn [cut_eq]. destruct (aeq c eqc) eqn:E; [discriminate|].
+  destruct (cut_eq r) as [[a b]|] eqn:Er; [discriminate|]. intros _. cbn [forallb]. now rewrite E, IH.
+Qed.
+
+Lemma cut_eq_app n v : forallb (fun x => negb (aeq x eqc)) n = true -> cut_eq (n ++ eqc :: v) = Some (n, v).
+Proof.
+  induction n as [|c n IH]; intros H; cbn [app cut_eq].
+  - now rewrite aeq_refl.
+  - cbn [forallb] in H. apply andb_true_iff in H as [Hc H]. apply negb_true_iff in Hc. now rewrite Hc, (IH H).
+Qed.
+
+Lemma plain_nil v : plain [] v = true -> no_inner_eq v = true.
+Proof.
+  unfold plain. cbn [is_nil negb orb]. intros H. apply andb_true_iff in H as [_ H].
+  unfold no_inner_eq. now rewrite H, orb_true_r.
+Qed.
+
+(* the split is a split of the text, and what it takes for a name is a name *)
+Lemma qsplit_spec st : let '(nm, v) := qsplit st in
+  st = (match nm with [] => [] | _ => nm ++ [eqc] end) ++ v /\ (nm <> [] -> name_ok nm = true) /\
+  (nm = [] -> plain nm v = true -> no_inner_eq v = true).
+Proof.
+  unfold qsplit. destruct (cut_eq st) as [[[|a a'] b]|] eqn:E.
+  - split; [reflexivity|]. split; [congruence|]. intros _ H. now apply plain_nil.
+  - destruct (forallb clean_ch (a :: a')) eqn:Ec.
+    + destruct (cut_eq_spec _ _ _ E) as [-> Hn]. split; [now rewrite <- app_assoc|]. split; [|discriminate].
+      intros _. unfold name_ok. cbn [nonempty andb].
+      clear E. induction (a :: a') as [|c r IH]; [reflexivity|].
+      cbn [forallb] in *. apply andb_true_iff in Ec as [Hc Ec]. apply andb_true_iff in Hn as [He Hn].
+      rewrite (IH Ec Hn), andb_true_r. unfold not_sp_eq, clean_ch in *.
+      apply andb_true_iff in Hc as [H1 H2]. now rewrite H1, H2, He.
+    + split; [reflexivity|]. split; [congruence|]. intros _ H. now apply plain_nil.
+  - split; [reflexivity|]. split; [congruence|]. intros _ H. now apply plain_nil.
+Qed.
+
+Lemma plain_word nm v : plain nm v = true -> word_ok v = true.
+Proof.
+  unfold plain, word_ok. intros H. apply andb_true_iff in H as [H _]. apply andb_true_iff in H as [Hn Hs].
+  destruct v as [|c r]; [discriminate|]. cbn [nonempty andb].
+  assert (forallb not_q_sp (c :: r) = true /\ head_is bt (c :: r) = false) as [-> ->]; [|reflexivity].
+  split.
+  - clear Hn. induction (c :: r) as [|x l IH]; [reflexivity|]. cbn [forallb] in *. apply andb_true_iff in Hs as [Hx Hs].
+    rewrite (IH Hs), andb_true_r. unfold simple_ch, not_q_sp in *. apply andb_true_iff in Hx as [Hx _].
+    apply andb_true_iff in Hx as [H1 H2]. now rewrite H1, H2.
+  - cbn [forallb head_is] in *. apply andb_true_iff in Hs as [Hx _]. unfold simple_ch in Hx. apply andb_true_iff in Hx as [_ Hx].
+    now apply negb_true_iff in Hx.
+Qed.
+
+Lemma to_item_render st : render_item (to_item st) = quote_param st.
+Proof.
+  unfold to_item, quote_param. pose proof (qsplit_spec st) as H. destruct (qsplit st) as [nm v].
+  destruct H as (Hst & _ & _). destruct (plain nm v); destruct nm as [|n0 nm]; cbn [render_item app] in *;
+    try (rewrite Hst; now rewrite <- ?app_assoc); try reflexivity.
+  now rewrite <- app_assoc.
+Qed.
+
+Lemma to_item_pair st : item_pair (to_item st) = qsplit st.
+Proof. unfold to_item. destruct (qsplit st) as [nm v]. destruct (plain nm v); destruct nm; reflexivity. Qed.
+
+Lemma to_item_v0 st : bs_ok st = true -> v0_item (to_item st) = true.
+Proof.
+  unfold bs_ok, to_item. pose proof (qsplit_spec st) as H. destruct (qsplit st) as [nm v].
+  destruct H as (_ & Hname & Heq). intros Hb.
+  destruct (plain nm v) eqn:Ep.
+  - pose proof (plain_word _ _ Ep) as Hw. destruct nm as [|n0 nm]; cbn [v0_item].
+    + now rewrite Hw, (Heq eq_refl eq_refl).
+    + now rewrite Hw, (Hname ltac:(discriminate)).
+  - cbn [orb] in Hb. destruct nm as [|n0 nm]; cbn [v0_item]; unfold qval_ok.
+    + exact Hb.
+    + now rewrite Hb, (Hname ltac:(discriminate)).
+Qed.
+
+(* re-parsing the recorded text gives the parameters as quoteParam read them: for ANY list of stringified
+   parameters none of which has to be quoted while ending in a backslash *)
+Theorem record_parse_gen : forall l : list la, forallb bs_ok l = true ->
+  parse (join (map quote_param l)) = map qsplit l.
+Proof.
+  intros l H.
+  replace (map quote_param l) with (map render_item (map to_item l))
+    by (rewrite map_map; apply map_ext; intros; apply to_item_render).
+  change (join (map render_item (map to_item l))) with (doc_render (map to_item l)).
+  rewrite parse_doc.
+  - unfold values. rewrite map_map. apply map_ext. intros; apply to_item_pair.
+  - unfold V0. rewrite forallb_forall in *. intros x Hx. apply in_map_iff in Hx as (p & <- & Hp).
+    apply to_item_v0. now apply H.
+Qed.
+
+(* ... so the stringified parameters - DAG.Params, $1..$n - always come back unchanged *)
+Lemma stringify_qsplit st : stringify (qsplit st) = st.
+Proof.
+  pose proof (qsplit_spec st) as H. destruct (qsplit st) as [nm v]. destruct H as (Hst & _ & _).
+  unfold stringify. cbn [fst snd]. destruct nm as [|n0 nm]; [exact (eq_sym Hst)|].
+  rewrite Hst. now rewrite <- app_assoc.
+Qed.
+
+Theorem record_parse_strings : forall ps : list pair, forallb bs_ok (map stringify ps) = true ->
+  map stringify (parse (record ps)) = map stringify ps.
+Proof.
+  intros ps H. unfold record. rewrite (record_parse_gen _ H). rewrite map_map.
+  rewrite <- (map_id (map stringify ps)) at 2. rewrite !map_map. apply map_ext. intros p. apply stringify_qsplit.
+Qed.
+
+(* ... and the (name, value) pairs come back unchanged for parameters in V1 *)
+Lemma v1_qsplit p : v1_pair p = true -> qsplit (stringify p) = p /\ bs_ok (stringify p) = true.
+Proof.
+  unfold v1_pair. intros H. apply andb_true_iff in H as [Hb H]. split; [|exact Hb].
+  destruct p as [[|n0 n] v]; [cbn [fst snd stringify] in *|cbn [fst snd] in H].
+  - unfold qsplit in *. destruct (cut_eq v) as [[[|a a'] b]|]; try reflexivity.
+    destruct (forallb clean_ch (a :: a')); [discriminate | reflexivity].
+  - unfold name_ok in H. cbn [nonempty andb] in H.
+    assert (Hne : forallb (fun x => negb (aeq x eqc)) (n0 :: n) = true /\ forallb clean_ch (n0 :: n) = true).
+    { clear Hb. induction (n0 :: n) as [|c r IH]; [now split|]. cbn [forallb] in *. apply andb_true_iff in H as [Hc H].
+      destruct (IH H) as [I1 I2]. rewrite I1, I2, !andb_true_r. unfold not_sp_eq, clean_ch in *.
+      apply andb_true_iff in Hc as [Hc H3]. apply andb_true_iff in Hc as [H1 H2]. now rewrite H1, H2, H3. }
+    destruct Hne as [H1 H2]. unfold qsplit.
+    change (stringify (n0 :: n, v)) with ((n0 :: n) ++ eqc :: v).
+    rewrite (cut_eq_app (n0 :: n) v H1). now rewrite H2.
+Qed.
 
 Theorem record_parse : forall ps, V1 ps = true -> parse (record ps) = ps.
 Proof.
-  intros ps H. unfold record.
-  replace (map stringify ps) with (map render_item (map to_item ps))
-    by (rewrite map_map; apply map_ext; intros; apply to_item_render).
-  change (join (map render_item (map to_item ps))) with (doc_render (map to_item ps)).
-  rewrite parse_doc.
-  - unfold values. rewrite map_map. rewrite <- (map_id ps) at 2. apply map_ext. intros; apply to_item_pair.
-  - unfold V0, V1 in *. rewrite forallb_forall in *. intros x Hx. apply in_map_iff in Hx as (p & <- & Hp).
-    rewrite to_item_v0. now apply H.
+  intros ps H. unfold record, V1 in *. rewrite forallb_forall in H.
+  rewrite record_parse_gen.
+  - rewrite map_map. rewrite <- (map_id ps) at 2. apply map_ext_in. intros p Hp. now apply v1_qsplit, H.
+  - rewrite forallb_forall. intros x Hx. apply in_map_iff in Hx as (p & <- & Hp). now apply v1_qsplit, H.
 Qed.
 
 Theorem roundtrip : forall s, V1 (parse s) = true -> parse (record (parse s)) = parse s.
 Proof. intros s H. now apply record_parse. Qed.
 
-(* documented items made of words only survive the round trip as well *)
 Corollary roundtrip_doc : forall its, V0 its = true -> V1 (values its) = true ->
   parse (record (parse (doc_render its))) = parse (doc_render its).
 Proof. intros its H0 H1. rewrite (parse_doc its H0). now apply record_parse. Qed.
@@ -398,14 +520,36 @@ Qed.
 (* Full statement (false):  forall its (any values), parse (doc_render its) = values its
                             forall its, parse (record (parse (doc_render its))) = parse (doc_render its) *)
 
-(* F11a: a value with a space does not survive record -> re-parse (the item list is in V0) *)
-Lemma roundtrip_refuted : exists its, V0 its = true /\
-  parse (record (parse (doc_render its))) <> parse (doc_render its).
-Proof. exists [IQuoted (L "a b"); IWord (L "c")]. split; [reflexivity | vm_compute; discriminate]. Qed.
+(* before fix 92cc1cc (model.Params was the plain join of the values) these came back as a, b, c / X=a, b  [F11a] *)
+Example roundtrip_fixed :
+  parse (record (parse (doc_render [IQuoted (L "a b"); IWord (L "c")]))) = parse (doc_render [IQuoted (L "a b"); IWord (L "c")]) /\
+  parse (record (parse (doc_render [INamedQ (L "X") (L "a b")]))) = parse (doc_render [INamedQ (L "X") (L "a b")]) /\
+  record (parse (doc_render [IQuoted (L "a b"); IWord (L "c"); IQuoted []])) = L """a b"" c """"".
+Proof. repeat split; reflexivity. Qed.
 
-Lemma roundtrip_named_refuted : exists its, V0 its = true /\
+(* what remains: a positional value that looks like NAME=value comes back as the named parameter NAME (same text,
+   same $i - but NAME is exported in the retry / restart as well) *)
+Lemma roundtrip_refuted_positional_eq : exists its, V0 its = true /\
   parse (record (parse (doc_render its))) <> parse (doc_render its).
-Proof. exists [INamedQ (L "X") (L "a b")]. split; [reflexivity | vm_compute; discriminate]. Qed.
+Proof. exists [IQuoted (L "a=b")]. split; [reflexivity | vm_compute; discriminate]. Qed.
+
+(* ... and a value that has to be quoted and ends with a backslash *)
+Lemma roundtrip_refuted_backslash : exists ps : list pair,
+  map stringify (parse (record ps)) <> map stringify ps.
+Proof. exists [([], L "a b\"); ([], L "c d")]. vm_compute. discriminate. Qed.
+
+(* every clause of V1 is needed *)
+Lemma V1_clauses_needed :
+  (exists v, bs_ok v = true /\ is_nil (fst (qsplit v)) = false /\ parse (record [([], v)]) <> [([], v)]) /\
+  (exists v w, bs_ok v = false /\ is_nil (fst (qsplit v)) = true /\ v1_pair ([], w) = true /\
+               parse (record [([], v); ([], w)]) <> [([], v); ([], w)]) /\
+  (exists n v, name_ok n = false /\ bs_ok (stringify (n, v)) = true /\ parse (record [(n, v)]) <> [(n, v)]).
+Proof.
+  repeat split.
+  - exists (L "a=b"). repeat split; try reflexivity. vm_compute. discriminate.
+  - exists (L "a b\"), (L "c d"). repeat split; try reflexivity. vm_compute. discriminate.
+  - exists (L "a b"), (L "c"). repeat split; try reflexivity. vm_compute. discriminate.
+Qed.
 
 (* what remains of F11b: a quoted value cannot END with a backslash - it swallows the closing quote *)
 Lemma parse_doc_refuted_edge_backslash : exists v w, parse (doc_render [IQuoted v; IQuoted w]) <> values [IQuoted v; IQuoted w].
@@ -456,7 +600,9 @@ Example V0_example :
       INamedQ (L "Z") (L "`date` \x"); IQuoted (L "say " ++ dq :: L "hi" ++ [dq]); IQuoted [dq]; IQuoted (L "=")] = true.
 Proof. reflexivity. Qed.
 
-Example V1_example : V1 [([], L "a"); (L "X", L "1=2"); ([], L "=x"); ([], L "a\b`c")] = true.
+Example V1_example :
+  V1 [([], L "a"); (L "X", L "1=2"); ([], L "=x"); ([], L "a\b`c"); ([], L "a b"); (L "Y", L " p  q "); ([], []);
+      (L "Z", dq :: L "hi" ++ [dq]); ([], L "x y=z"); ([], L "tail\")] = true.
 Proof. reflexivity. Qed.
 
 Example parse_doc_example :
